@@ -216,11 +216,15 @@ def search(ctx, broken, disagreements):
     """Snell / on-surface / path-length oracle on the implementation, seeded sweep"""
     import oracles
     cases, hist = _lens_cases(ctx, ctx.n(60, 600), 6)
+    out = []
     for c in cases:
         bad = oracles.check_trace(c['surfs'], c['recs'])
         if bad:
-            return {'spec': c['spec'], 'ray': c['ray'], 'oracle': bad[:4], 'violates_property': True}
-    return None
+            out.append({'spec': c['spec'], 'ray': c['ray'], 'oracle': bad[:4], 'violates_property': True})
+    # witnesses that are NOT the listed Chebyshev finding first (the driver reports the first unlisted one)
+    listed = {'id': 'chebyshev-normal-norm'}
+    out.sort(key=lambda w: matches_finding(w, listed))
+    return out[:12] or None
 
 
 
